@@ -172,7 +172,7 @@ impl<'store> Transposable<'store> for ResultTextSelectionSet<'store> {
 
                 // We may have multiple text selections to transpose (all must be found)
                 for (refseqnr, reftsel) in annotation.textselections().enumerate() {
-                    if reftsel.resource() == resource && source_side.is_none() || source_side == Some(side_i) //source side check
+                    if reftsel.resource() == resource && (source_side.is_none() || source_side == Some(side_i)) //source side check
                     {
                         // get the intersection of our text selection (tsel) and the one from the reference set (reftsel)
                         // this may be a partial match where we end up with a remainder containing
